@@ -423,7 +423,16 @@ func runPoolCase(c *checkCtx, cs poolCase) (res poolResult) {
 			if flags&poolFlagTwoFlush != 0 {
 				// the payload travels in a second message: wait until it has certainly arrived (flush returned + fence), so that
 				// it sits in the stream's pending data (never looked at by this caller) when the stream is given back
-				if !waitUntil(10*time.Second, func() bool { _, ok := ps.flushed2.Load(id); return ok }) || !fence() {
+				// "arrived" = it sits in this stream's pending data. (The server's Flush having returned plus a fence is not
+				// enough: its wake-up may still be queued in the session's send channel, and a reply that is still in flight when
+				// a stream is given back is outside the oracle.)
+				arrived := func() bool {
+					s.pendingData.Lock()
+					defer s.pendingData.Unlock()
+					return len(s.pendingData.unread) > 0
+				}
+				if !waitUntil(10*time.Second, func() bool { _, ok := ps.flushed2.Load(id); return ok && arrived() }) {
+					failWhy = "second message of a two-flush reply did not arrive"
 					fail()
 					return
 				}
